@@ -1012,7 +1012,7 @@ func (g *Gen) genUpdateAllowed(t *rapid.T, w *World, s *Snap) Op {
 		o.MaxBid = g.drawAmount(t, "ua-any").String()
 	}
 	if pct(t, g.W.PerturbPct/2, "perturb-ua") {
-		switch uni(t, "perturb-ua-kind", 3) {
+		switch pick(t, "perturb-ua-kind", []int{0, 1, 1, 1, 2}) {
 		case 0:
 			o.Bidder = Outsider
 		case 1:
